@@ -183,12 +183,17 @@ func runC02(r *core.Run) {
 	// go-sev-guest usage keeps a validator and calls it for many reports
 	closures := map[string]func(*spb.Attestation, []byte) error{}
 	closure := func(named uint32, digClass string, digest []byte, getter bool) func(*spb.Attestation, []byte) error {
-		key := fmt.Sprintf("%d/%s/%v", named, digClass, getter)
+		// a caller that names no count may leave the optional SNP options out altogether
+		omit := named == 0 && r.Bool("omit-snp-options")
+		key := fmt.Sprintf("%d/%s/%v/%v", named, digClass, getter, omit)
 		if f, ok := closures[key]; ok {
 			r.Probe("closure-reused")
 			return f
 		}
 		o := &verify.Options{SNP: &verify.SNPOptions{ExpectedLaunchVMSAs: named}, ExpectedUefiSha384: digest, RootsOfTrust: roots, Now: now}
+		if omit {
+			o.SNP = nil
+		}
 		if getter {
 			o.Getter = net
 		}
